@@ -32,6 +32,7 @@ PresRecOf(cc) ==
 KeySetOf(cc) == CASE cc.keyop = "signer" -> {Key(cc)} [] cc.keyop = "signer_plus" -> {Key(cc), OtherSame(Key(cc)), OtherAlg(Key(cc))}
                   [] cc.keyop = "other_same_alg" -> {OtherSame(Key(cc))} [] cc.keyop = "other_alg" -> {OtherAlg(Key(cc))}
                   [] cc.keyop = "without_signer" -> {OtherSame(Key(cc)), OtherAlg(Key(cc))}
+                  [] cc.keyop = "empty" -> {}
 ImplOf(cc) == VerifyImpl(PresRecOf(cc), KeySetOf(cc), NormC(cc.pc), Fn(cc.venv))
 RuleOf(cc) == VerifyRule(NormC(cc.orig), Fn(cc.penv), Key(cc), PresRecOf(cc), KeySetOf(cc), NormC(cc.pc), Fn(cc.venv))
 =============================================================================
